@@ -684,10 +684,8 @@ class UserTrackingManager:
 
     def _get_tracked_user_object(self, user: User) -> TrackedUser:
         """Gets or creates a tracked user object"""
-        if user.name in self._tracked_users:
-            tracked_user = self._tracked_users[user.name]
-
-        else:
+        tracked_user = self._tracked_users.get(user.name)
+        if tracked_user is None or (tracked_user.task and tracked_user.task.done()):
             tracked_user = TrackedUser(user)
             tracked_user.task = asyncio.create_task(
                 self._tracking_task(tracked_user))
@@ -712,7 +710,8 @@ class UserTrackingManager:
             )
 
         finally:
-            self._tracked_users.pop(tracked_user.user.name, None)
+            if self._tracked_users.get(tracked_user.user.name) is tracked_user:
+                self._tracked_users.pop(tracked_user.user.name, None)
 
     async def _on_state_changed(self, event: ConnectionStateChangedEvent):
         if not isinstance(event.connection, ServerConnection):
